@@ -8,17 +8,17 @@ DIRS = {"fwd": "PatchDirection::Forward", "rev": "PatchDirection::Revert"}
 def c02a(n, p, r, a, s, k, d, timeout=1500):
     name = "c02a_n%d_p%dr%da%ds%d_k%d_%s" % (n, p, r, a, s, k, d)
     call = "c02a::<%d>(Shape { p: %d, r: %d, a: %d, s: %d }, %d, %s)" % (n, p, r, a, s, k, DIRS[d])
-    return Instance(name, "patch", call, unwind=n + 4, unwindset={"memcmp.0": 3}, mem_gb=8, timeout_s=timeout,
+    return Instance(name, "patchpriv", call, unwind=n + 4, unwindset={"memcmp.0": 3}, mem_gb=8, timeout_s=timeout,
                     sub="C02a", params=dict(file_lines=n, prefix_ctx=p, removed=r, added=a, suffix_ctx=s, fuzz_level=k, direction=d))
 
 
 def spec(tier, seed):
     inst = []
     for d in ("fwd", "rev"):
-        inst.append(Instance("c02c_%s" % d, "patch", "c02c(%s)" % DIRS[d], sub="C02c", mem_gb=2, timeout_s=300,
+        inst.append(Instance("c02c_%s" % d, "patchpriv", "c02c(%s)" % DIRS[d], sub="C02c", mem_gb=2, timeout_s=300,
                              must_cover=["asymmetric trim", "both trimmed, unequal"],
                              params=dict(direction=d, prefix="any u64", suffix="any u64", fuzz="any u64")))
-    inst.append(Instance("c02_twin", "patch", "c02a_twin()", unwind=7, unwindset={"memcmp.0": 3}, mem_gb=6, timeout_s=600,
+    inst.append(Instance("c02_twin", "patchpriv", "c02a_twin()", unwind=7, unwindset={"memcmp.0": 3}, mem_gb=6, timeout_s=600,
                          expect_fail=True, sub="vacuity twin", params=dict(note="same construction as C02a, ends in assert!(false)")))
     full = []
     for n in (5, 2, 0):
